@@ -296,10 +296,11 @@ let handle_limits words =
   | ["argmax_budget"; argmax; env; prog; fixed] ->
     let envl = Stdlib.List.map (fun kv -> match split_on ':' kv with [k; v] -> (big_n k, big_n v) | _ -> failwith "env") (list_of env) in
     show_n (ExecLimits.argmax_budget (big_n argmax) envl (big_n prog) (Stdlib.List.map big_n (list_of fixed)))
-  | ["kernel"; rl; argc; arglen; envl; fname] ->
-    (* argc arguments of length arglen each *)
+  | "kernel" :: rl :: argc :: arglen :: envl :: fname :: more ->
+    (* argc arguments of length arglen each; optionally what a "#!" line makes the kernel push *)
     let rec rep n x = if n = 0 then [] else x :: rep (n - 1) x in
-    let c = { ExecLimits.argv = rep (int_of_string argc) (big_n arglen); envp = Stdlib.List.map big_n (list_of envl); fname = big_n fname } in
+    let sb = match more with [x] -> big_n x | _ -> big_n "0" in
+    let c = { ExecLimits.argv = rep (int_of_string argc) (big_n arglen); envp = Stdlib.List.map big_n (list_of envl); fname = big_n fname; shebang = sb } in
     if ExecLimits.kernel_accepts_b (big_n rl) c then "1" else "0"
   | ["kernel_limit"; rl] -> show_n (ExecLimits.kernel_limit (big_n rl))
   | _ -> "badcase"
@@ -412,7 +413,8 @@ let handle_args words =
          | _ -> false)
       else if nm = "-printf" then (match ops with [f] -> (match Printf.parse (fun c -> Stdlib.List.mem (int_of_nat c) [72; 77; 89; 100; 109; 83; 84; 64]) (S (nat_of_int (Stdlib.List.length f))) (utf8_decode f) with Printf.Ok _ -> true | Printf.Err -> false) | _ -> false)
       else if nm = "-mindepth" || nm = "-maxdepth" then
-        (match ops with [o] -> let o' = (match o with c :: r when int_of_nat c = 43 && r <> [] -> r | _ -> o) in
+        (* decimal digits only (f625794: a leading '+' is no longer taken) *)
+        (match ops with [o] -> let o' = o in
           o' <> [] && Stdlib.List.for_all (fun c -> let x = int_of_nat c in x >= 48 && x <= 57) o' && Stdlib.List.length o' <= 18 | _ -> false)
       else if nm = "-regextype" then (match ops with [o] -> Stdlib.List.mem (str_of_nats o) ["emacs"; "grep"; "posix-basic"; "posix-extended"; "ed"; "sed"] | _ -> false)
       else Hashtbl.mem oracle_tbl (String.concat "|" (hex_of_bytes name :: Stdlib.List.map hex_of_bytes ops)) in
